@@ -44,9 +44,10 @@ def _run_driver(sexp_path, uni, cases, nproc=16):
 
 
 def lean_forests(res):
-    """{(gid, rule, input): {spec, stok, sprune}} for every whole-string `parse_partial` case of the suite: the Lean
-    `specTokPartial` run of the driver (cached in the suite's directory)."""
-    idx = [k for k, c in enumerate(res.cases) if c[2] == "parse_partial" and c[3] == "str"]
+    """{(gid, rule, input): {spec, stok, sprune}} for every whole-string `parse_partial` case of the suite that the Spec
+    accepts (`spec=ok:…` in the model's row; a rejected case has no forest): the Lean `specTokPartial` run of the driver
+    (cached in the suite's directory)."""
+    idx = [k for k, c in enumerate(res.cases) if c[2] == "parse_partial" and c[3] == "str" and "\tspec=ok:" in res.model[k]]
     path = os.path.join(res.dir, "spectok.txt")
     lines = None
     if os.path.exists(path):
@@ -56,6 +57,9 @@ def lean_forests(res):
     if lines is None:
         suites.ensure_driver()
         sexp = res.dir + ".sexp"
+        if not os.path.exists(sexp):      # (files directly under build/cache are garbage-collected by age)
+            sexp = os.path.join(res.dir, "grammars.sexp")
+            open(sexp, "w").write("\n".join(g["sexp"] for g in res.grammars.values()) + "\n")
         lines = _run_driver(sexp, suites.uni_table_for(sexp), [res.cases[k] for k in idx])
         tmp = path + f".{os.getpid()}.tmp"
         open(tmp, "w").write("\n".join(lines) + "\n")
@@ -90,18 +94,22 @@ def tie_spectok(ctx, res):
           "stack_grammar_forest_differs": 0, "verdict_or_end_differs": 0, "spec_oof": 0,
           "full_entry_compared": 0, "full_entry_no_pest_reference": 0}
     pr = {"cases": 0, "agree": 0}
-    diffs, pdiffs, bad_lines = [], [], 0
+    diffs, pdiffs, forget_diffs, bad_lines = [], [], [], 0
     pest_forest = {}                      # (gid, rule, input) -> pest's forest (text) where pest is a valid reference and agrees with the Spec
     atomic_of = {}
     for c, io, mo in res.rows():
         if c[2] != "parse_partial" or c[3] != "str":
             continue
         key = (c[0], c[1], c[6])
-        lo = lean.get(key, {})
+        lo = lean.get(key)
+        if lo is None:
+            lo = {"spec": mo["spec"]} if mo.get("spec") in ("fail", "oof") else {}
         spec = lo.get("spec")
         if spec is None:
             bad_lines += 1
             continue
+        if "spec" in mo and mo["spec"] != spec:
+            forget_diffs.append({"case": case_dict(c), "spec": mo["spec"], "specTok": spec})   # C02_specTok_forget says: impossible
         pest = io.get("pest")
         if pest is None:
             st["no_pest_reference_not_run"] += 1
@@ -175,6 +183,9 @@ def tie_spectok(ctx, res):
                                        "observables": ["specTok forest (unpruned) == pest forest"]}
     ctx.ties["prune-python-vs-lean"] = {"cases": pr["cases"], "agree": pr["agree"],
                                         "observables": ["props.prune(pest forest) == pruneAtomic(specTok forest)"]}
+    if forget_diffs:
+        ctx.tie_broken("Spec-tokens-vs-pest", {"error": "driver: spec and specTok.forget answer differently (C02_specTok_forget proves them equal)",
+                                               "disagreements": len(forget_diffs), "first": forget_diffs[:5]})
     if bad_lines:
         ctx.tie_broken("Spec-tokens-vs-pest", {"error": f"{bad_lines} cases without an answer of the driver's spectok command"})
     if ndiff:
